@@ -473,6 +473,17 @@ def run(ctx):
                 fam.append((["bin", op, ["fn", fn, ["this", "items"]], ["lit", 2]], "items" if fn != "abs" else "absa"))
                 fam.append((["bin", op, ["lit", 3], ["fn", fn, ["this", "items"]]], "items" if fn != "abs" else "absa"))
                 fam.append((["un", "-", ["fn", fn, ["this", "items"]]], "items" if fn != "abs" else "absa"))
+        # a helper applied to an operator expression rather than to a bare path
+        A, IT = ["this", "a"], ["this", "items"]
+        for inner in (["bin", "-", A, ["lit", 2]], ["un", "-", A], ["bin", "-", A, ["this", "b"]], ["bin", "*", ["un", "-", A], ["lit", 3]], ["bin", "-", ["fn", "min", IT], A],
+                      ["bin", "-", ["lit", 0], ["fn", "max", IT]]):
+            fam.append((["fn", "abs", inner], "mix"))
+            fam.append((["bin", "+", ["fn", "abs", inner], ["lit", 1]], "mix"))
+            fam.append((["un", "-", ["fn", "abs", inner]], "mix"))
+        for fn in ("len", "sum", "min", "max"):
+            for inner in (["bin", "*", IT, ["lit", 2]], ["bin", "+", IT, IT], ["bin", "+", IT, ["lit", tag([9, -9])]] if False else ["bin", "*", ["lit", 2], IT]):
+                fam.append((["fn", fn, inner], "mix"))
+                fam.append((["bin", "-", ["fn", fn, inner], A], "mix"))
         for u in UNOPS:
             fam.append((["un", u, ["obj"]], "obj"))
         for i in (-1, 0, 1, 2):
@@ -493,6 +504,8 @@ def run(ctx):
                 cs = [{"obj": 0, "list": [x, y, z], "a": 1, "b": 1, "c": 1} for x in (-1, 0, 2) for y in (0, 3) for z in (1, -2)]
             elif kind == "items":
                 cs = [{"items": it, "a": 1, "b": 2, "c": 3} for it in ([1], [1, 2, 3], [-2, 5], [0, 0, 0, 7], [3, 1, 2])]
+            elif kind == "mix":
+                cs = [{"items": it, "a": a, "b": b, "c": 3} for it in ([1], [1, 2, 3], [-2, 5], [3, 1, 2]) for a in (-7, 0, 1, 5) for b in (2, -3)]
             elif kind == "absa":
                 cs = [{"items": v, "a": 1, "b": 2, "c": 3} for v in INTS + [-7]]
             else:
